@@ -244,7 +244,7 @@ func execStep(mgr *server.Manager, cmd [][]byte) (out string) {
 //
 // A C command preceded by BG lines, and every BLPOP/BRPOP, is traced as the G lines of the
 // background commands (same layout as S, chronological), the S line, and "T <unix ms at which the
-// C command returned>".
+// C command returned>"; every G line is followed by "GT <unix ms at which that command returned>".
 //
 // The Manager (the databases) is shared by all connections of a case, as server.Start does; every
 // connection id gets its own NewConnView(), as server.Manager.Handle does, so SELECT is
@@ -317,6 +317,7 @@ func memRunCmd(args []string) error {
 			timed := len(pendingBG) > 0 || name == "blpop" || name == "brpop"
 			bgOut := make([]string, len(pendingBG))
 			bgAt := make([]time.Time, len(pendingBG))
+			bgEnd := make([]time.Time, len(pendingBG))
 			var wg sync.WaitGroup
 			for i, b := range pendingBG {
 				wg.Add(1)
@@ -330,6 +331,7 @@ func memRunCmd(args []string) error {
 					}
 					bgAt[i] = time.Now()
 					bgOut[i] = execStep(bv, bc)
+					bgEnd[i] = time.Now()
 				}(i, b)
 			}
 			now := time.Now()
@@ -344,6 +346,8 @@ func memRunCmd(args []string) error {
 			for _, i := range order {
 				b := pendingBG[i]
 				fmt.Fprintf(w, "G %d %d %s %s | %s\n", bgAt[i].Unix(), bgAt[i].UnixMilli(), b.conn, strings.Join(b.args, " "), bgOut[i])
+				// instant at which the background command returned (it may itself be a blocking pop)
+				fmt.Fprintf(w, "GT %d\n", bgEnd[i].UnixMilli())
 			}
 			pendingBG = nil
 			fmt.Fprintf(w, "S %d %d %s %s | %s\n", now.Unix(), now.UnixMilli(), fs[1], strings.Join(fs[3:], " "), out)
